@@ -382,3 +382,109 @@ def position_records(run, thorough):
                                                           if k not in ("bytes", "frame_b", "df", "icao", "tdf", "ticao", "dupkeys")})
     info.update(points=int(mm.group(2)), histories=n_vec, validated=n, tlc_runs=len(results))
     return rejected, info
+
+
+CLI_CHUNK = 4000
+
+
+def _run_cli(exe, lines, workdir, tag):
+    """Run decode1090 on a list of input lines; returns (stdout text, return code)."""
+    inp = os.path.join(workdir, f"cli_{tag}.jsonl")
+    with open(inp, "w") as f:
+        f.write("\n".join(lines) + "\n")
+    try:
+        p = subprocess.run([exe, "--input", inp, "--deduplication", "0"], stdout=subprocess.PIPE, stderr=subprocess.PIPE,
+                           text=True, errors="replace", timeout=600, env={"PATH": os.environ.get("PATH", ""), "RUST_BACKTRACE": "0"})
+        return p.stdout, p.returncode, p.stderr[-400:]
+    except subprocess.TimeoutExpired as ex:
+        return (ex.stdout or b"").decode(errors="replace") if isinstance(ex.stdout, bytes) else (ex.stdout or ""), -9, "timeout"
+
+
+MAX_CLI_CRASHES = 4       # per chunk: after that many attributed deaths the rest of the chunk is skipped (and counted)
+
+
+def _cli_chunk(exe, first, lines, workdir, crashes, skipped):
+    """One chunk of the input through decode1090.  If the process dies, the culprit is the first
+    input after the last printed line whose single-line run also dies (confirmed alone); it is
+    recorded and the rest of the chunk is run again after it."""
+    out = []
+    start = 0
+    guard = 0
+    while start < len(lines):
+        text, rc, err = _run_cli(exe, lines[start:], workdir, f"{first}_{start}")
+        out.append(text)
+        if rc == 0:
+            break
+        guard += 1
+        if guard > MAX_CLI_CRASHES:
+            # the verdict is settled; do not spend a process run per remaining input
+            printed = [l for l in text.split("\n") if l.strip()]
+            skipped.append([first + start, first + len(lines)])
+            out[-1] = ""
+            break
+        printed = [l for l in text.split("\n") if l.strip()]
+        last_ts = None
+        if printed:
+            try:
+                last_ts = json.loads(printed[-1]).get("timestamp")
+            except Exception:
+                last_ts = None
+        k = start
+        if last_ts is not None:
+            for j in range(start, len(lines)):
+                if json.loads(lines[j])["timestamp"] == last_ts:
+                    k = j + 1
+                    break
+        # the first input from k on that kills the program when given alone
+        culprit = None
+        for j in range(k, len(lines)):
+            _, rc1, err1 = _run_cli(exe, [lines[j]], workdir, f"{first}_solo")
+            if rc1 != 0:
+                culprit = j
+                err = err1
+                break
+        if culprit is None:
+            raise core.ToolError(f"decode1090 died (rc={rc}) but no single input reproduces it: {err}")
+        crashes.append({"n": first + culprit, "rc": rc, "stderr": err, "input": json.loads(lines[culprit])})
+        start = culprit + 1
+    return "".join(out)
+
+
+def decode1090_segment(run, res):
+    """C07, decode1090 segment: the program itself (unmodified binary) is given every DF at every
+    length and every shape with its basic fills as a jsonl file; every line it prints is judged by
+    Trace_Json (kind "cli") against the bytes and against the in-process record of the same input."""
+    t0 = time.time()
+    tool = core.build_decode1090()
+    exe = res["exe"]
+    inp = os.path.join(run.work, "cli_input.jsonl")
+    p = subprocess.run([exe, "cliinput", res["cfg"], inp], stdout=subprocess.PIPE, stderr=subprocess.STDOUT, text=True, timeout=1200)
+    if p.returncode != 0:
+        raise core.ToolError("c01 cliinput failed\n" + p.stdout[-1500:])
+    with open(inp) as f:
+        lines = [l.rstrip("\n") for l in f if l.strip()]
+    crashes, skipped = [], []
+    chunks = [(a, lines[a:a + CLI_CHUNK]) for a in range(0, len(lines), CLI_CHUNK)]
+    with cf.ThreadPoolExecutor(max_workers=4) as ex:
+        outs = list(ex.map(lambda c: _cli_chunk(tool, c[0], c[1], run.work, crashes, skipped), chunks))
+    tool_out = os.path.join(run.work, "cli_output.jsonl")
+    with open(tool_out, "w") as f:
+        f.write("".join(outs))
+    cr = os.path.join(run.work, "cli_crashes.json")
+    with open(cr, "w") as f:
+        json.dump({"crashes": crashes, "skipped": skipped}, f)
+    tr = os.path.join(run.work, "clirec.ndjson")
+    p = subprocess.run([exe, "cli", inp, tool_out, cr, tr], stdout=subprocess.PIPE, stderr=subprocess.STDOUT, text=True, timeout=1800)
+    if p.returncode != 0:
+        raise core.ToolError("c01 cli failed\n" + p.stdout[-2000:])
+    info = json.loads(p.stdout.strip().splitlines()[-1])
+    sub = {"parts": [(0, run.work)], "tier": {"tlc_procs": 4}}
+    rejected, n, results = validate_parts(run, sub, "trace/Trace_Json", "clirec.ndjson", max_lines=30000, keep=True,
+                                          slim=lambda e: {k: v for k, v in e.items() if k not in ("bytes", "frame_b", "df", "icao")})
+    info.update(skipped_after_repeated_crashes=sum(b - a for a, b in skipped), validated=n, tlc_runs=len(results), process_runs=len(chunks), wall_s=round(time.time() - t0, 1),
+                crashes=[{"n": c["n"], "frame": c["input"]["frame"], "stderr": c["stderr"][-200:]} for c in crashes],
+                rule="decode1090 --input <jsonl> --deduplication 0, distinct timestamps 1 s apart; in-process reference = "
+                     "serde_json::to_string(TimedMessage{same timestamp, frame, Message::from_bytes, same metadata}); the line is "
+                     "compared without latitude/longitude (history dependent); when the reference holds both bds50 and bds60 "
+                     "the line may lack the pair (decode1090 invalidates it; the in-process pass does not)")
+    return rejected, info
